@@ -92,8 +92,9 @@ def make_values(world, shape):
     vals = 5000.25 + 0.5 * rs.permutation(size)
     if world["layout"].get("int_values"):
         vals = 5000.0 + 2.0 * rs.permutation(size)
-    for z in world["zeros"]:
-        vals[z % size] = 0.0
+    for n_, z in enumerate(world["zeros"]):
+        # most of the listed entries are exact zeros; every third one is a tiny but non-zero number (a sparse export must keep it)
+        vals[z % size] = 0.0 if (n_ % 3 or world["layout"].get("int_values")) else [1e-9, -3e-12, 2.5e-10][n_ % 9 // 3]
     return vals.reshape(shape)
 
 
@@ -816,10 +817,13 @@ class IoChan(Engine):
                 d_in = pd.read_csv(path)
             elif medium == "csv_reader":
                 rd = CSVParameterReader(parameter_files={name: path}, allow_missing_values=flags[0], allow_extra_values=flags[1])
+                # another reader object with the opposite settings exists in the same program; it must not matter
+                CSVParameterReader(parameter_files={"other": path}, allow_missing_values=not flags[0], allow_extra_values=not flags[1])
                 return rd.read_parameter_values(name, dims)
             else:
                 rd = ExcelParameterReader(parameter_files={name: path}, parameter_sheets={name: "data"},
                                           allow_missing_values=flags[0], allow_extra_values=flags[1])
+                ExcelParameterReader(parameter_files={"other": path}, allow_missing_values=not flags[0], allow_extra_values=not flags[1])
                 return rd.read_parameter_values(name, dims)
             if consumer == "from_df":
                 return FlodymArray.from_df(dims=dims, df=d_in, allow_missing_values=flags[0], allow_extra_values=flags[1])
